@@ -567,6 +567,23 @@ func runC08(ctx *Ctx) error {
 		crcs = append(crcs, crc)
 	}
 	base := [][]byte{[]byte("hello hello hello hello"), []byte("abcabcabcabcabcabcabcabc"), r.Bytes(40), bytes.Repeat([]byte("xy"), 90), nil, []byte("a")}
+	// a stream long enough for the adaptive tree to be rebuilt while it is read (more than 32768
+	// symbols), with byte 0 more frequent than byte 1 before the rebuild and literals 1 after it:
+	// the rebuild re-derives every leaf pointer, the two lowest symbols included
+	rebuild := r.Bytes(33400) // random bytes compress to (almost) one literal symbol each
+	for i := range rebuild {
+		if rebuild[i] == 1 {
+			rebuild[i] = 0
+		}
+	}
+	rebuild = append(rebuild, []byte("\x01\x01\x01 The quick brown fox \x01 jumps over the lazy dog \x01\x00\x01\x02\x01 and again: the quick brown fox \x01")...)
+	base = append(base, rebuild)
+	// the same input compressed by the reference (the canonical stream, whatever the library's
+	// own writer does): the reader's tree must follow the canonical one through the rebuild
+	var canonRebuild []byte
+	if out, err := ctx.Model.Run([]string{"canoncomp b1 " + tx(rebuild)}); err == nil && len(out) == 1 {
+		canonRebuild = unx(strings.TrimSpace(out[0]))
+	}
 	var valid [][]byte
 	var validCrc []bool
 	for _, x := range base {
@@ -576,6 +593,9 @@ func runC08(ctx *Ctx) error {
 			validCrc = append(validCrc, crc)
 			add("valid", s, crc)
 		}
+	}
+	if len(canonRebuild) > 0 {
+		add("canonical-rebuild", canonRebuild, true)
 	}
 	for i := 0; i < ctx.N(300, 3000); i++ {
 		add("random", r.Bytes(r.Intn(64)), r.Intn(2) == 0)
